@@ -1,19 +1,19 @@
 import GqlVerif.Proofs.C01RecursiveE
 /-!
-# C01 / C03, spreads at abstract positions (part 2 of the task): what the model does, and one statement that is false
+# C01 / C03, spreads at abstract positions (part 2 of the task): what the model does on concrete shapes
 
 No universally quantified `variantspread_*` theorems are proved here (see the report of task P12).  This file records, on
 the model's own functions and a concrete schema (`vxSchema` of `C01Abstract`: `interface Character { name }`,
 `Human implements Character { name height }`, `Droid implements Character { name primaryFunction }`):
 
-* **a statement that is false for the model** — `variantspread_alias_drops_sibling`: when one of the selections on a
-  variant is an inline fragment whose body is a lone spread (`... on Human { ...HF }`), the variant struct becomes a
-  type alias of `HF` (`calcVariants`: "an aliased type stops at the alias") and **every other selection on the same
-  variant is dropped** (here the sibling spread `...HG` on `Human`): the emitted type accepts a response whose
-  `height` (selected through `HG`) has the wrong scalar kind (C03 fails) and the round trip of a *conforming* response
-  loses `height` (C01 fails).  Any class `VariantSpreadOp` has to exclude this shape (or the generator has to be
-  changed); it is not one of the known findings (`C01-overlap`, `C01-dropped-fragment`).
-* the three shapes that do work, evaluated on the model (`decide +kernel`, no general theorem): a lone spread on a
+* **the formerly false statement, now positive** — `variantspread_alias_keeps_sibling`: when one of the selections on a
+  variant is an inline fragment whose body is a lone spread (`... on Human { ...HF }`) *together with other members*
+  (here the sibling spread `...HG` on `Human`), the variant struct used to become a type alias of `HF` and every other
+  selection on the same variant was dropped.  After the fix of `calcVariants` (`aliasMember`) the variant struct keeps
+  the ordinary members and gets one more `#[serde(flatten)]` member for the aliased fragment (`vsBad_items`): the
+  round trip of a *conforming* response keeps `height` (`variantspread_alias_keeps_sibling`, C01) and a response whose
+  `height` (selected through `HG`) has the wrong scalar kind is rejected (`variantspread_alias_rejects_wrong_kind`, C03).
+* the three shapes that worked before, evaluated on the model (`decide +kernel`, no general theorem): a lone spread on a
   possible type (variant payload = type alias of the fragment struct), two spreads on the same possible type (variant
   struct with two flattened members), a spread on the abstract type itself (flattened next to the `on` enum; both the
   fragment's own `on` enum and the outer one read `__typename` — tagged enums borrow — and after
@@ -39,16 +39,14 @@ def vsCtx (sels : List Sel) : Ctx := { s := vxSchema, q := vsQuery sels, o := {}
 /-- `hero { __typename ... on Human { ...HF } ...HG }` -/
 def vsBad : List Sel := [.typename, .inline (.object 1) [.spread 0], .spread 1]
 
-/-- the variant struct of `Human` is the alias `type QheroOnHuman = HF`; nothing refers to `HG` -/
+/-- the variant struct of `Human` is a struct with two flattened members: the ordinary member `HG` followed by the
+    member made from the aliased fragment `HF` (no longer the alias `type QheroOnHuman = HF`) -/
 theorem vsBad_items :
     (match responseForQuery (vsCtx vsBad) 0 with
      | .ok items =>
        (match (moduleEnv (vsCtx vsBad) items).find "QheroOnHuman" with
-        | some (.alias _ _ (.path "HF")) => true
-        | _ => false) &&
-       items.all (fun it => match it with
-         | .struct _ _ _ fs => fs.all (fun f => f.ty != .path "HG")
-         | _ => true)
+        | some (.struct _ _ _ [f, g]) => f.flatten && g.flatten && f.ty == .path "HG" && g.ty == .path "HF"
+        | _ => false)
      | .error _ => false) = true := by decide +kernel
 
 /-- a response that conforms to the specification (Human: `name` through `HF`, `height` through `HG`) -/
@@ -61,24 +59,25 @@ theorem vsBad_conforms :
     vxSchema, vsJson, Json.lookup, accepts, acceptsNN, gtyOf, scalarOk, floatOk, stringOk,
     Json.isNull, EnumSpec.nodup, List.range, List.range.loop, conformsAt]
 
-/-- **false for the model** (C01): the round trip of the conforming response loses `height` … -/
-theorem variantspread_alias_drops_sibling :
+/-- (C01, formerly the negative witness `variantspread_alias_drops_sibling`) the round trip of the conforming
+    response keeps `height`: the sibling `...HG` is no longer dropped (members in struct order: `HG`, then `HF`) -/
+theorem variantspread_alias_keeps_sibling :
     (match responseForQuery (vsCtx vsBad) 0 with
      | .ok items =>
        (match Serde.roundtrip (moduleEnv (vsCtx vsBad) items) (.path "ResponseData") vsJson with
-        | .ok (.obj [("hero", .obj [("__typename", .str "Human"), ("name", .str "x")])]) => true
+        | .ok (.obj [("hero", .obj [("__typename", .str "Human"), ("height", .num "1.8"), ("name", .str "x")])]) => true
         | _ => false)
      | .error _ => false) = true := by decide +kernel
 
-/-- … and (C03) a string under the `Float` key `height` is accepted -/
-theorem variantspread_alias_accepts_wrong_kind :
+/-- (C03, formerly `variantspread_alias_accepts_wrong_kind`) a string under the `Float` key `height` is rejected -/
+theorem variantspread_alias_rejects_wrong_kind :
     (match responseForQuery (vsCtx vsBad) 0 with
      | .ok items =>
-       okB (Serde.de (moduleEnv (vsCtx vsBad) items) (.path "ResponseData")
+       !okB (Serde.de (moduleEnv (vsCtx vsBad) items) (.path "ResponseData")
          (.obj [("hero", .obj [("__typename", .str "Human"), ("name", .str "x"), ("height", .str "tall")])]))
      | .error _ => false) = true := by decide +kernel
 
-/-! ## the shapes that work, on the model -/
+/-! ## the shapes that worked before the fix, on the model -/
 
 /-- `hero { __typename ...HF }`: the variant payload is the alias `type QheroOnHuman = HF`; round trip exact -/
 example :
